@@ -32,7 +32,16 @@ histories executed on ONE `Modules` value, that this extra state is transparent:
   failed_load_no_trace       | typeDict.dict (typedefs of nested scopes register   | bad texts with ONE late fault,
                              | while the AST is built: D31), name maps after a     | exact duplicates, two-module
                              | partial add (D32), `mod.Modules` back pointer       | texts whose second module is
-                             |                                                     | rejected, then more operations
+                             | entryCache = the processed trees, links, identity   | rejected, then more operations;
+                             | value lists ACROSS a refused text whose earlier      | texts of 2-4 statements refused
+                             | statements had registered (a cache dropped in `add` | at the LAST one (new module, newer
+                             | is not brought back by restoreNames: seeded change  | revision, submodule registered
+                             | C18-i22; statically: Props/C18State, stray writer)  | before), then the READ BATTERY
+                             |                                                     | (ToEntry of everything, GetErrors,
+                             |                                                     | identity values, Find) on the value
+                             |                                                     | and on a shadow value that never
+                             |                                                     | saw the refused texts, before the
+                             |                                                     | next Process; `read` vs the model
   read_no_trace              | entryCache entries and memoised types / errors made | ToEntry / Find / GetErrors walks
                              | by ToEntry before a Process (D45), rpc input/output | between operations; later dumps
                              | created lazily by Find                              | must equal batch and model
